@@ -101,7 +101,7 @@ def invoke(fx, d, batch, v, tag='out'):
 	else:
 		ks = clifix.kspec_of('P0')
 		sp = os.path.join(d, 'batch.gs')
-		ids = [('id-{}-{}', 'refseq/{}.{}.fa.gz', '{}-{}.fasta')[i % 3].format(l, i) for i, l in enumerate(batch)]        # incl. IDs that look like paths / file names
+		ids = [('refseq/{}.{}.fa.gz', 'id-{}-{}', '{}-{}.fasta')[i % 3].format(l, i) for i, l in enumerate(batch)]        # incl. IDs that look like paths / file names
 		dump_signatures(sp, AnnotatedSignatures(SignatureArray([clifix.lib_signature('P0', dict(clifix.QUERIES, **clifix.EXTRA_QUERIES)[l]) for l in batch], ks, dtype=ks.index_dtype), ids, SignaturesMeta()))
 		args += ['-s', sp]
 		exp_labels = ids
